@@ -3,32 +3,35 @@ from common import SAN_BASE
 
 PROP = dict(
         technique=("runtime monitoring: ASan/UBSan build; PRNG trees rendered in each section style, parsed by mpt_parse_node and compared "
-                   "node by node with the source tree; metamorphic comparison of canonical / compact / decorated renderings"),
-        level_text=("Monitored executions of the real parser and node builder: 150k (quick) / 2M (thorough) generated trees (depth <= 5, "
+                   "node by node with the source tree; metamorphic comparison of canonical / compact / decorated renderings; C++ leg: the "
+                   "same trees through a long-lived mpt::config_parser (file, open/read/reset/read)"),
+        level_text=("Monitored executions of the real parser and node builder: 120k (quick) / 2M (thorough) generated trees (depth <= 5, "
                     "fan-out <= 6, duplicate and empty names, empty / quoted / long values across 255 and 65535 bytes) x 12 format "
                     "strings of the three section styles x name flag sets, each rendered three ways (example-file layout, optional "
                     "whitespace removed, random blanks / blank lines / comment lines / trailing comments / CR LF) and read back; nesting, "
-                    "order, names, values and parent/prev links are compared.  Exploration, not proof."),
-        level_note=("trusts the renderer in harness/c09_readback.c, i.e. its reading of the doc comments of mpt_parse_format_pre/_enc/_sep, "
+                    "order, names, values and parent/prev links are compared; 40k / 500k further trees are written to a file and read 2-4 "
+                    "times through one mpt::config_parser (open, read, reset or new open, read again; fresh or used result node), every "
+                    "pass compared the same way.  Exploration, not proof."),
+        level_note=("trusts the renderer and comparison in harness/c09_tree.c, i.e. its reading of the doc comments of mpt_parse_format_pre/_enc/_sep, "
                     "mpt_parse_format and of examples/core/*.txt, *.lay, mpt.conf; gcc ASan/UBSan"),
         legs=[dict(name="c09_readback", memcheck=600, src=["c09_readback.c", "c09_tree.c"], libs=["mptcore"], batch=512,
-                   floors={"mpt_parse_node": 450000, "style:prefix": 70000, "style:enclosed": 35000, "style:separated": 35000,
-                           "monitor:trees-equal:canonical": 150000, "monitor:trees-equal:compact": 150000,
-                           "monitor:trees-equal:noisy": 150000, "monitor:values-compared": 2000000,
-                           "monitor:names-compared": 2000000, "monitor:links-compared": 2000000, "tree:depth>=3": 15000,
-                           "tree:with-value-250..254": 15000, "tree:with-value-255..260": 15000, "tree:with-value-65530..65540": 3000,
-                           "tree:with-name-250..260": 10000, "tree:comment-char-inside-plain-value": 10000,
-                           "decoration:comments": 300000, "decoration:blank-lines": 300000, "decoration:trailing-comments": 50000,
-                           "decoration:crlf": 50000}),
+                   floors={"mpt_parse_node": 360000, "style:prefix": 56000, "style:enclosed": 28000, "style:separated": 28000,
+                           "monitor:trees-equal:canonical": 120000, "monitor:trees-equal:compact": 120000,
+                           "monitor:trees-equal:noisy": 120000, "monitor:values-compared": 1600000,
+                           "monitor:names-compared": 1600000, "monitor:links-compared": 1600000, "tree:depth>=3": 12000,
+                           "tree:with-value-250..254": 12000, "tree:with-value-255..260": 12000, "tree:with-value-65530..65540": 2400,
+                           "tree:with-name-250..260": 8000, "tree:comment-char-inside-plain-value": 8000,
+                           "decoration:comments": 240000, "decoration:blank-lines": 240000, "decoration:trailing-comments": 40000,
+                           "decoration:crlf": 40000}),
               dict(name="c09_cxx", src=["c09_cxx.cpp", "c09_tree.c"], libs=["mpt++", "mptio", "mptplot", "mptcore"], batch=512, lsan=True,
-                   floors={"parser::read": 150000, "parser::open": 70000, "config_parser::reset": 60000,
-                           "monitor:trees-equal:first-read": 60000, "monitor:trees-equal:after-reset": 60000,
-                           "monitor:trees-equal:after-reopen": 15000, "state:read-into-used-node": 20000,
-                           "style:prefix": 25000, "style:enclosed": 12000, "style:separated": 12000,
-                           "text:canonical": 15000, "text:compact": 15000, "text:noisy": 15000,
-                           "monitor:values-compared": 1500000, "monitor:names-compared": 1500000,
-                           "tree:depth>=3": 5000, "tree:with-value-250..260": 10000, "tree:with-value-65530..65540": 1000,
-                           "tree:last-top-level-element-is-option": 15000, "flags:config_parser-defaults": 4000})],
+                   floors={"parser::read": 100000, "parser::open": 45000, "config_parser::reset": 40000,
+                           "monitor:trees-equal:first-read": 40000, "monitor:trees-equal:after-reset": 40000,
+                           "monitor:trees-equal:after-reopen": 10000, "state:read-into-used-node": 15000,
+                           "style:prefix": 18000, "style:enclosed": 9000, "style:separated": 9000,
+                           "text:canonical": 10000, "text:compact": 10000, "text:noisy": 10000,
+                           "monitor:values-compared": 1000000, "monitor:names-compared": 1000000,
+                           "tree:depth>=3": 4000, "tree:with-value-250..260": 8000, "tree:with-value-65530..65540": 1000,
+                           "tree:last-top-level-element-is-option": 12000, "flags:config_parser-defaults": 3000})],
         rule=("case = (format string, section/option name flag sets, generated tree of sections, options and anonymous data); the tree is "
               "rendered canonically, compactly and with random decoration and each text is parsed into an empty root; non-trivial = "
               "the tree has at least 3 nodes and (except for the flat separated style) at least one section; distinct = 64-bit hash "
